@@ -343,10 +343,16 @@ class Ctx:
             d.update(extra)
         self.disagreements.append(d)
 
-    def pair(self, domain, lines, base=False, impl_args=(), timeout=900):
-        """Run implementation and model on the same lines; returns (impl_out, model_out)."""
+    def pair(self, domain, lines, base=False, impl_args=(), timeout=900, partial=False):
+        """Run implementation and model on the same lines; returns (impl_out, model_out).
+        partial=True: when the implementation side dies half-way, return what it answered (plus the reason in self.harness_death) so that
+        the caller can judge the cases that completed before it reports the crash."""
         rc1, o1, e1 = run_impl(domain, lines, args=impl_args, timeout=timeout)
         rc2, o2, e2 = run_model(domain, lines, base=base, timeout=timeout)
+        self.harness_death = None
+        if partial and (rc1 != 0 or len(o1) != len(lines)) and rc2 == 0 and len(o2) == len(lines):
+            self.harness_death = "harness %s: exit %s after %d of %d lines\n%s" % (domain, rc1, len(o1), len(lines), e1[-1500:])
+            return o1, o2
         if rc1 != 0 or len(o1) != len(lines):
             raise RuntimeError("harness %s: exit %s, %d/%d lines\n%s" % (domain, rc1, len(o1), len(lines), e1[-2000:]))
         if rc2 != 0 or len(o2) != len(lines):
